@@ -114,7 +114,7 @@ def main(tier):
     from .. import docspec
 
     structure = {r for r, d in docspec.spec().items() if d["group"] == "structure"}
-    its = common.pipe_items(tier, KQ, KT, k1=True, k1_rules=structure)
+    its = common.pipe_items(tier, KQ, KT, k1=True, k1_rules=structure) + common.k2_items(tier, indent=(tier != "quick"))
     m = explore.run(its, execute, horizon=120.0, label=PROP)
     return report.finish(
         PROP, tier, "model_checking", [m], t0,
@@ -122,7 +122,7 @@ def main(tier):
         "fresh parse, (c) the report the run printed is compared with the report of a second real apply_rules (no fix) on the written file; on failure the run is repeated with a probe after "
         "every effective transition to name the first transition that breaks re-readability; non-trivial = executions in which the fix changed the model",
         ["whitespace / line-break / blank-line marker tokens are compared through the emitted text only", "set_token_indent is applied to both sides before comparing indentation levels"],
-        extra_cov={"bound": common.bound_text(tier, KQ, KT)},
+        extra_cov={"bound": common.bound_text(tier, KQ, KT) + "; K2: each single skip_phase / the documented use-clause indent options on the seeds concerned"},
         reproduce=reproduce,
         technique="explicit-state exploration of the fix pipeline; end-state re-parse equivalence and report differential, culprit located by per-transition probing",
     )
